@@ -1,0 +1,20 @@
+//go:build verif
+
+package resolve
+
+// VerifHook is installed by the verification harness (build tag verif only).
+// It is called at the named points with two scalar arguments; it may block (scheduler gate).
+var VerifHook func(point string, a, b uint64)
+
+func verifPoint(point string, a, b uint64) {
+	if h := VerifHook; h != nil {
+		h(point, a, b)
+	}
+}
+
+func verifBool(v bool) uint64 {
+	if v {
+		return 1
+	}
+	return 0
+}
